@@ -45,6 +45,18 @@ def gen_send_cases(ctx):
                 add(mtu, rng.choice([4, 6, 4, 0x40]), n)
     for _ in range(400 if ctx.thorough else 40):
         add(rng.randrange(23, 518), rng.choice([4, 6]), rng.randrange(0, 65536) if rng.random() < 0.08 else rng.randrange(0, 3000))
+    # periodic SDUs: later chunks byte-identical to the first chunk (period = MTU-1 and divisors),
+    # constant fills, and repeated identical continuation chunks
+    for mtu in ([23, 24, 100] if not ctx.thorough else [23, 24, 27, 64, 100, 185, 247]):
+        k = mtu - 1
+        for reps, tail in ((2, 0), (3, 0), (3, 5), (4, 1)):
+            first = rng.choice(ATT_FIRST)
+            block = bytes([first]) + bytes(rng.randrange(256) for _ in range(k - 1))
+            cases.append((mtu, 4, block * reps + block[:tail]))
+            cases.append((mtu, 6, bytes([0xf0]) * (k * reps + tail)))
+        half = bytes([rng.choice(ATT_FIRST)]) + bytes(rng.randrange(256) for _ in range(k // 2 - 1)) if k % 2 == 0 else None
+        if half:
+            cases.append((mtu, 4, half * 6))
     # degenerate MTUs below 23 are outside the property (MTU >= 23) but inside the theorem (>= 2)
     for mtu in (2, 3, 5):
         for n in (0, 1, 2, 3, 7, 11):
